@@ -214,6 +214,21 @@ func mayRejectPrimary(q refsearch.Query) bool {
 	return refsearch.IsBinary(f.Key) && (f.Op == refsearch.OpEQ || f.Op == refsearch.OpPrefix)
 }
 
+// isSubsequence reports whether got is exp with some items left out.
+func isSubsequence(got, exp []refsearch.Item, nattr int) bool {
+	j := 0
+	for _, g := range got {
+		for j < len(exp) && exp[j].ID != g.ID {
+			j++
+		}
+		if j == len(exp) || diffItems(exp[j:j+1], []refsearch.Item{g}, nattr) != "" {
+			return false
+		}
+		j++
+	}
+	return true
+}
+
 func sharesPrefix(vals []string) bool {
 	for i := range vals {
 		for j := range vals {
@@ -310,17 +325,21 @@ func runCorpus(t *rapid.T, rec *ev.Recorder, open func(*stor.Epoch) (*target, er
 				rec.Sample(map[string]any{"corpus": c, "query": q, "page": p, "expected": len(exp)})
 			}
 
-			known := func(msg string) bool {
+			// a failure is excused only if the query has the shape of an OPEN known
+			// finding and the failure shows that finding's symptom
+			known := func(symptom string) bool {
 				for _, cls := range classify(view, q) {
+					if symptom == "error" || (symptom == "other" && searchgen.OmissionOnly(cls)) {
+						continue
+					}
 					if rec.Known(cls) {
 						rec.Label("known-" + cls)
+						rec.Excluded(1)
 						return true
 					}
 				}
-				_ = msg
 				return false
 			}
-
 			got, pages, perr := paginate(tg, cnr, q, uint16(p), len(exp)+3)
 			if perr != nil {
 				switch {
@@ -341,7 +360,7 @@ func runCorpus(t *rapid.T, rec *ev.Recorder, open func(*stor.Epoch) (*target, er
 					rec.Label("rejected-primary-undecodable")
 					continue
 				}
-				if known(perr.err.Error()) {
+				if known("error") {
 					continue
 				}
 				t.Fatalf("page %d (cursor %q, count %d): %v\nquery: %s\ncorpus: %s\nexpected:%s\ngot so far:%s",
@@ -359,7 +378,11 @@ func runCorpus(t *rapid.T, rec *ev.Recorder, open func(*stor.Epoch) (*target, er
 				nattr = 0
 			}
 			if d := diffItems(exp, got, nattr); d != "" {
-				if known(d) {
+				symptom := "other"
+				if isSubsequence(got, exp, nattr) {
+					symptom = "omission"
+				}
+				if known(symptom) {
 					continue
 				}
 				t.Fatalf("%s\nquery: %s\npage size %d (%d pages)\ncorpus: %s\nexpected:%s\ngot:%s", d, q, p, pages, cjs, fmtItems(exp), fmtItems(got))
@@ -371,8 +394,11 @@ func runCorpus(t *rapid.T, rec *ev.Recorder, open func(*stor.Epoch) (*target, er
 			if len(q.Filters) > 0 {
 				qa.Attrs = []string{q.Filters[0].Key}
 			}
-			selKnown := func() bool {
+			selKnown := func(omission bool) bool {
 				for _, cls := range classify(view, qa) {
+					if !omission && searchgen.OmissionOnly(cls) {
+						continue
+					}
 					if rec.Known(cls) {
 						rec.Label("known-" + cls)
 						return true
@@ -382,7 +408,7 @@ func runCorpus(t *rapid.T, rec *ev.Recorder, open func(*stor.Epoch) (*target, er
 			}
 			addrs, err := safeSelect(tg, cnr, q.SDK())
 			if err != nil {
-				if strings.HasPrefix(err.Error(), "PANIC") && !selKnown() {
+				if strings.HasPrefix(err.Error(), "PANIC") {
 					t.Fatalf("Select: %v\nquery: %s\ncorpus: %s", err, q, cjs)
 				}
 				rec.Label("select-rejected")
@@ -403,7 +429,15 @@ func runCorpus(t *rapid.T, rec *ev.Recorder, open func(*stor.Epoch) (*target, er
 			}
 			sort.Strings(a)
 			sort.Strings(b)
-			if strings.Join(a, ",") != strings.Join(b, ",") && !selKnown() {
+			omission := true
+			inB := map[string]bool{}
+			for _, x := range b {
+				inB[x] = true
+			}
+			for _, x := range a {
+				omission = omission && inB[x]
+			}
+			if strings.Join(a, ",") != strings.Join(b, ",") && !selKnown(omission) {
 				t.Fatalf("Select: expected %v, got %v\nquery: %s\ncorpus: %s", b, a, q, cjs)
 			}
 			rec.Label("select-compared")
